@@ -71,7 +71,7 @@ func geomV4(start, end string) geom {
 	sb, eb := ipToBig(s, "v4"), ipToBig(e, "v4")
 	n := int(new(big.Int).Sub(eb, sb).Int64()) + 1
 	return geom{kind: "v4", name: start + "-" + end, base: sb, bsize: big.NewInt(1), n: n, page: 32, poollen: 0,
-		mk: func() (allocators.Allocator, error) { return bitmap.NewIPv4Allocator(s, e) }}
+		mk: func() (allocators.Allocator, error) { return bitmap.NewIPv4Allocator(net.ParseIP(start), net.ParseIP(end)) }}
 }
 
 func geomV6(pool string, page int) geom {
@@ -83,7 +83,14 @@ func geomV6(pool string, page int) geom {
 	bs := new(big.Int).Lsh(big.NewInt(1), uint(128-page))
 	return geom{kind: "v6", name: pool + ">" + strconv.Itoa(page), base: ipToBig(p.IP.To16(), "v6"), bsize: bs,
 		n: 1 << uint(page-pl), page: page, poollen: pl,
-		mk: func() (allocators.Allocator, error) { return bitmap.NewBitmapAllocator(*p, page) }}
+		mk: func() (allocators.Allocator, error) {
+			// a fresh copy of the pool for every allocator: instances must not share address bytes
+			_, fresh, err := net.ParseCIDR(pool)
+			if err != nil {
+				return nil, err
+			}
+			return bitmap.NewBitmapAllocator(*fresh, page)
+		}}
 }
 
 func (g geom) blockBase(b int) *big.Int {
@@ -143,6 +150,9 @@ func alphabet(g geom, blocks []int, below, above int, domain string) []letter {
 		}
 	}
 	if domain == "any" {
+		// the all-zero address, a far-away prefix and a prefix of the other family: all outside the pool
+		ls = append(ls, letter{op: "free", k: "outside", side: "zero", d: 0}, letter{op: "free", k: "outside", side: "far", d: 0},
+			letter{op: "free", k: "outside", side: "foreign", d: 0})
 		for d := 1; d <= below; d++ {
 			ls = append(ls, letter{op: "free", k: "outside", side: "below", d: d})
 		}
@@ -366,13 +376,45 @@ func (x *allocRun) do(l letter) bool {
 				fn.IP = fn.IP.Mask(fn.Mask)
 			}
 		}
+	} else if l.side == "foreign" {
+		if g.kind == "v4" {
+			fn = net.IPNet{IP: net.ParseIP("2001:db8::1"), Mask: net.CIDRMask(128, 128)}
+		} else {
+			fn = net.IPNet{IP: net.IPv4(10, 0, 0, 1).To4(), Mask: net.CIDRMask(32, 32)}
+		}
 	} else {
-		addr := g.outsideAddr(l.side, l.d)
-		if addr == nil {
+		var addr *big.Int
+		switch l.side {
+		case "zero":
+			addr = big.NewInt(0)
+		case "far":
+			addr = new(big.Int).Add(g.blockBase(g.n-1), new(big.Int).Mul(g.bsize, big.NewInt(1<<20)))
+			lim := max128
+			if g.kind == "v4" {
+				lim = max32
+			}
+			if addr.Cmp(lim) > 0 {
+				addr = new(big.Int).Sub(g.base, new(big.Int).Mul(g.bsize, big.NewInt(1<<20)))
+			}
+		default:
+			addr = g.outsideAddr(l.side, l.d)
+		}
+		if addr == nil || addr.Sign() < 0 {
+			return false
+		}
+		// the letter only stands for a prefix OUTSIDE the pool
+		if rel := new(big.Int).Sub(addr, g.base); rel.Sign() >= 0 && rel.Cmp(new(big.Int).Mul(g.bsize, big.NewInt(int64(g.n)))) < 0 {
 			return false
 		}
 		if g.kind == "v4" {
-			fn = net.IPNet{IP: bigToIP(addr, 4), Mask: net.CIDRMask(32, 32)}
+			ip := bigToIP(addr, 4)
+			if x.r.Intn(2) == 0 {
+				ip = ip.To16()
+				if l.side == "zero" && x.r.Intn(2) == 0 {
+					ip = net.IPv6unspecified // "::", the 16-byte spelling of "no address"
+				}
+			}
+			fn = net.IPNet{IP: ip, Mask: net.CIDRMask(32, 32)}
 		} else {
 			fn = net.IPNet{IP: bigToIP(addr, 16), Mask: net.CIDRMask(g.page, 128)}
 		}
